@@ -90,11 +90,8 @@ def rules(t):
         okb = e[0][1] if e else s.node["target"]
         region = f.reachable_from([okb])
         incs = []
-        for st in t.sites(f):
-            n = st.node
-            if st.bb in region and n["k"] == "assign" and n["place"]["proj"] and n["place"]["proj"][-1]["k"] == "field" and n["place"]["proj"][-1]["name"] == cname:
-                o = t.stored(st)
-                if "AddWithOverflow 1" in fmt(o): incs.append(st)
+        for st in t.stores("", cname, f):          # direct stores and stores through a reference to the field (`let Self { global_sequence: nonce, .. } = self; *nonce += 1`)
+            if st.bb in region and "AddWithOverflow 1" in fmt(t.stored(st)): incs.append(st)
         post = incs and all_paths_pass(f, okb, {x.bb for x in incs})
         gone = False
         if not post:
